@@ -17,8 +17,12 @@ DEPTH = {'n': 1}
 def _obs(S, ev):
     tr = cachemc.apply_event(S, ev, ())
     # the RR chooser picks index 0 on both sides; the resident-key order is part of the observation
+    # what the step returned / raised, the statistics, the resident keys in order, and where the archive side stands
+    # (archiving on or off, contents of the attached and of the parked archive)
+    fr = lambda d: None if d is None else tuple(sorted((cachemc.sr(k), cachemc.sr(v)) for k, v in d.items()))
     return (tr.obs if tr.exc is None else ('exc', type(tr.exc).__name__), tuple(tr.post.info),
-            tuple(map(repr, tr.post.mem.keys())), tuple(tr.post.stats or ()))
+            tuple(map(repr, tr.post.mem.keys())), tuple(tr.post.stats or ()),
+            bool(tr.post.archived), fr(tr.post.arch), fr(tr.post.swap))
 
 
 def continuation_check(cfg, hist, ev, script, S, tr, evs):
